@@ -6,21 +6,21 @@ MANIFEST = {
     "text": ("Kernel-checked theorems over the model of BankConfig::validate, the e-mode validators, Bank::configure and every "
              "admin path that writes a bank configuration: validate = Ok gives all stated weight inequalities over raw I80F48 bits; "
              "e-mode validation = Ok gives 0 <= init <= maint < liability weights, the leverage-cap inequality as computed and no "
-             "duplicate tags; Valid is preserved by add, configure, interest-only, limits-only, e-mode configure, staked propagation "
-             "and any sequence of them (e-mode clone only under a stated side condition: refuted in general, finding "
-             "emode-clone-unvalidated); no request puts a bank into the killed state (leaving it is refuted: finding "
-             "killed-bank-revived); for every portfolio of any length under Valid weights initial health >= 0 implies maintenance "
+             "duplicate tags; Valid is preserved by add, configure, interest-only, limits-only, e-mode configure, e-mode clone, staked "
+             "propagation, curve migration and any sequence of them; no request puts a bank into the killed state and none takes it "
+             "out again (the two defects found in round 1, killed-bank-revived and emode-clone-unvalidated, are repaired in /repo; "
+             "their oracles stay armed); for every portfolio of any length under Valid weights initial health >= 0 implies maintenance "
              "health >= 0 at equal prices, with and without e-mode. Tied to the real code by differential execution of the "
              "validators (level A) and of sequences of real admin instructions in the sim runtime (level C) with a Valid-oracle on "
              "the real bank bytes after every successful instruction and a buffer-oracle on the health components cached by the real risk engine."),
-    "design_ref": "DESIGN.md §7 C13, §8 F3 F4",
+    "design_ref": "DESIGN.md §7 C13 (§8 F3 F4 repaired)",
     "technique": "Coq proofs (validator soundness, invariant preservation by induction over request lists, monotonicity of the weighted sums) + model/implementation correspondence at levels A and C",
 }
 THEOREMS = [
     "C13_validate_sound", "C13_staked_validate_sound", "C13_emode_validate_sound", "C13_emode_sorted_no_duplicates",
     "C13_add_bank_valid", "C13_add_bank_permissionless_valid", "C13_paths_preserve_valid", "C13_sequences_preserve_valid",
-    "C13_clone_emode_refuted", "C13_clone_emode_restricted", "C13_configure_revalidates_emode",
-    "C13_no_request_kills", "C13_killed_revived_refuted", "C13_killed_stays_killed_except_configure",
+    "C13_clone_emode_valid", "C13_configure_revalidates_emode",
+    "C13_no_request_kills", "C13_killed_forever", "C13_killed_forever_sequences",
     "C13_reconcile_keeps_init_le_maint", "C13_buffer", "C13_buffer_with_emode", "C13_buffer_without_emode",
     "C13_init_discount_in_unit_interval",
 ]
@@ -48,7 +48,7 @@ ONE = 1 << 48
 U32 = (1 << 32) - 1
 U64 = (1 << 64) - 1
 I128_MIN, I128_MAX = -(1 << 127), (1 << 127) - 1
-KNOWN_KEYS = ("killed-bank-revived", "emode-clone-unvalidated")
+KNOWN_KEYS = ()   # nothing is tolerated: both round-1 findings are repaired in /repo, their oracle keys stay armed
 STEP_KINDS = ("ADD", "ADS", "CFG", "IRO", "LIM", "EM", "CL", "GC", "SSI", "SSE", "PR", "KILL", "HP", "MIG")
 ORACLE_MIN_AGE = 10
 NOW = 1_700_000_000
@@ -490,12 +490,9 @@ def gen_probe(rng):
     return line("HP", k, parts)
 
 
-FINDING_CASES = {
-    # F3: bank 0 added, killed by the real bankruptcy handler, then set back to Operational by configure_bank
-    "killed-bank-revived": None,
-    # F4: bank 0 (liability weights 2.0) gets an e-mode entry with weights 1.5/1.6, cloned onto bank 1 (liability weights 1.0)
-    "emode-clone-unvalidated": None,
-}
+# Regression cases of the two repaired findings (always the first two cfgsim lines):
+#  killed-bank-revived: bank 0 added, killed by the real bankruptcy handler, then configure_bank(operational_state = Operational)
+#  emode-clone-unvalidated: bank 0 (liability weights 2.0) gets an entry with weights 1.5/1.6, cloned onto bank 1 (liability weights 1.0)
 
 
 def _std_compact(lwi, lwm, awi=fx(Fraction(1, 2)), awm=fx(Fraction(3, 5))):
